@@ -1922,6 +1922,13 @@ class Sim:
                 return ("value", Adt("std::option::Option", 0, []))
             if last == "contains" and len(d) == 2 and isinstance(d[1], int) and all(isinstance(x, int) for x in items):
                 return ("value", int(d[1] in items))
+            if last in ("split_first", "split_last") and len(d) == 1 and not isinstance(tup, Bytes):
+                # `(first, rest)` / `(last, rest)`: the element by reference, the remaining elements as a slice of their own
+                if not items:
+                    return ("value", Adt("std::option::Option", 0, []))
+                if last == "split_first":
+                    return ("value", Adt("std::option::Option", 1, [Tup([Ref(items, 0, ()), Ref([Tup(list(items[1:]))], 0, ())])]))
+                return ("value", Adt("std::option::Option", 1, [Tup([Ref(items, len(items) - 1, ()), Ref([Tup(list(items[:-1]))], 0, ())])]))
             if last in ("first", "last") and len(d) == 1:
                 if items:
                     return ("value", Adt("std::option::Option", 1, [Ref(items, 0 if last == "first" else len(items) - 1, ())]))
